@@ -27,7 +27,11 @@ var unexportedNames = []string{"foo", "bar", "helper", "get"}
 
 // user-chosen parameter names; the second half equals what the generator itself would choose
 var plainParamNames = []string{"a", "b", "x", "s", "n", "in", "out", "v2", "π"}
-var trickyParamNames = []string{"arg0", "arg1", "arg2", "ret0", "ret1", "ctx", "err", "arg", "ret", "ctx0", "err0", "arg00", "ret2"}
+var trickyParamNames = []string{"arg0", "arg1", "arg2", "ret0", "ret1", "ctx", "err", "arg", "ret", "ctx0", "err0", "arg00", "ret2",
+	// underscore-prefixed names (the spelling linters accept for unused parameters) are names, not `_`
+	"_x", "_ctx", "_id", "__", "_0", "_err", "_arg0", "x_",
+	// predeclared identifiers and keyword look-alikes are legal parameter names; so are non-ASCII letters
+	"len", "nil", "true", "iota", "append", "any", "string", "error", "funcs", "type_", "Map", "range1", "ñ", "名前", "Ωmega"}
 
 type gen struct {
 	r    *rand.Rand
@@ -297,6 +301,16 @@ func genProgram(r *rand.Rand, name string) *prog {
 			p.Ifaces = append(p.Ifaces, it)
 			leaves = append(leaves, cand{named(g.self, "I2"), false, 0})
 		}
+	}
+	// instantiated generic types (their promoted methods carry the type ARGUMENTS) and a defined
+	// non-struct type
+	targ := func() *gty {
+		return pick(r, []*gty{basic("string"), basic("int"), named(pV2, "V"), named(pPlain, "T"), ptr(named(pRen, "R")),
+			named(g.self, "Loc"), slice(named(pOdd, "Odd")), tErr, named(g.self, "LocG", basic("byte"))})
+	}
+	if r.IntN(2) == 0 {
+		leaves = append(leaves, cand{named(g.self, "LocG", targ()), true, 0}, cand{named(g.self, "LocPair", g.keyTy(), targ()), true, 0},
+			cand{named(pPlain, "G", targ()), true, 0}, cand{named(g.self, "LocInts"), true, 0})
 	}
 	leaves = append(leaves,
 		cand{named(pPlain, "E"), true, 0}, cand{named(pPlain, "I"), false, 0},
